@@ -4,7 +4,7 @@
 set -u
 W=$1; cd "$W" || exit 2
 git checkout -q -- . 2>/dev/null
-CMD=$(grep -m1 -oE '(g\+\+|clang\+\+)[^*]*' seed_demo.cpp | sed 's/\*\/.*//')
+CMD=$(grep -m1 -E '^// *(g\+\+|clang\+\+)' seed_demo.cpp | sed 's|^// *||')
 [ -z "$CMD" ] && { echo "SEED $W: no compile command"; exit 2; }
 build_demo() { rm -f seed_demo; eval "$CMD" >/dev/null 2>seed_demo_build.log; }
 build_demo || { echo "SEED $W: demo does not compile unpatched"; exit 1; }
